@@ -1473,3 +1473,68 @@ def j_r10_one_shot_iterators_consumed_once(p: Project, rep: Report):
             rep.check("J-R10", f"{fname}:{name}:consumed-once", clash is None, f"`{name}` is a one-shot iterator ({text(v)[:40]}) and is consumed at line {clash[0].lineno} and again at line {clash[1].lineno}: the second consumer finds it empty - with the first one behind `if logger.isEnabledFor(DEBUG)`, running with -vv silently requests none of the discovered accounts" if clash else "", gloc(p, st))
     if n == 0:
         rep.check("J-R10", "ofxget:no-iterator-bound-to-a-local", True, "nothing to consume twice", "")
+
+
+def _always_keys(comp, ex: Expander, p: Project, params):
+    """constant keys a mapping expression defines whatever the response holds: (keys or None when not decidable)"""
+    from .fold import fold
+    from .source import UNK
+
+    v = ex.x(comp) if not isinstance(comp, (ast.Dict, ast.DictComp)) else comp
+    if isinstance(v, ast.Dict):
+        if all(isinstance(k, ast.Constant) for k in v.keys):
+            return {k.value for k in v.keys}
+        return None
+    if isinstance(v, ast.Call) and text(v.func) in ("dict.fromkeys",) and v.args:
+        it = fold(ex.x(v.args[0]), {}, p, OFXGET)
+        return set(it) if isinstance(it, (tuple, list)) else None
+    if isinstance(v, ast.DictComp) and len(v.generators) == 1 and isinstance(v.generators[0].target, ast.Name):
+        g = v.generators[0]
+        t = g.target.id
+        if text(v.key) != t:
+            return None
+        it = fold(ex.x(g.iter), {}, p, OFXGET)
+        if not isinstance(it, (tuple, list)):
+            return None
+        for f in g.ifs:
+            # masking exactly what the chain already supplies / what the response did not supply leaves no hole
+            okf = isinstance(f, ast.Compare) and len(f.ops) == 1 and text(f.left) == t and ((isinstance(f.ops[0], ast.In) and text(f.comparators[0]).split(".")[0] in params) or isinstance(f.ops[0], ast.NotIn))
+            if not okf:
+                return None
+        return set(it)
+    return None
+
+
+def j_r11_unlisted_types_masked(p: Project, rep: Report):
+    rep.rule("J-R11", "with --all the accounts requested are the ones the response lists as ACTIVE, for EVERY account type: the layer _merge_acctinfo inserts ahead of the config files defines each account-type option (the list-valued DEFAULTS the request builders iterate) whatever the response holds - the per-class parsers only define a type that has an ACTIVE account (and none runs for a class the response does not list), so a layer built from their results alone lets an account saved in ofxget.cfg through although the server reports it PEND / AVAIL or no longer lists it")
+    defaults, _conf = _configurable(p)
+    # the account options: list-valued and saved per user (configurable_user)
+    types_ = sorted(k for k, v in defaults.items() if isinstance(v, (list, tuple)) and k in _conf)
+    ma0 = _fn(p, "_merge_acctinfo")
+    ma = flat(p, OFXGET, ma0)
+    ex = Expander(ma)
+    params = set(params_of(ma))
+    ins = [c for c in ast.walk(ma) if isinstance(c, ast.Call) and isinstance(c.func, ast.Attribute) and c.func.attr == "insert" and text(c.func.value).endswith(".maps") and len(c.args) == 2]
+    if not ins or len(types_) < 6:
+        rep.note("J-R11 undecided: _merge_acctinfo no longer inserts into the chain's maps / DEFAULTS lists fewer than six account types")
+        return
+    for c in ins:
+        layer = ex.x(c.args[1])
+        comps = list(layer.args) if isinstance(layer, ast.Call) and text(layer.func).split(".")[-1] == "ChainMap" else [layer]
+        have, unknown, shadowing = set(), [], []
+        for i_, a in enumerate(comps):
+            if isinstance(a, ast.Starred):
+                continue  # the parsers' results: keys depend on the response
+            ks = _always_keys(a, ex, p, params)
+            if ks and set(ks) & set(types_) and any(isinstance(b, ast.Starred) for b in comps[i_ + 1:]):
+                shadowing.append(text(a)[:40])
+            if ks is None:
+                unknown.append(text(a)[:50])
+            else:
+                have |= ks
+        missing = [t for t in types_ if t not in have]
+        if missing and unknown:
+            rep.note(f"J-R11 undecided: keys of {unknown} not decided")
+            continue
+        rep.check("J-R11", "_merge_acctinfo:mask-ranks-after-the-listed-accounts", not shadowing, f"{shadowing} precedes the parsed accounts in the inserted layer: its empty lists shadow every account the response lists, so --all requests nothing" if shadowing else "", gloc(p, c))
+        rep.check("J-R11", "_merge_acctinfo:unlisted-types-masked", not missing, f"the inserted layer {text(layer)[:70]} defines {missing} only when the response has an ACTIVE account of that type: `ofxget stmt --all` still requests an account of such a type saved in the config file although the server lists it as PEND / AVAIL or not at all" if missing else "", gloc(p, c))
